@@ -45,9 +45,9 @@ type c10Case struct {
 	Src     c10File  `json:"src"`
 	Tgt     c10File  `json:"tgt"`
 	Third   *c10File `json:"third,omitempty"`
-	Item    string   `json:"item"`            // func | var | stmt | local
-	Uses    int      `json:"uses"`            // bit set of dependencies used by the item
-	History string   `json:"history"`         // single | chain | two | back | clone | reuse | viadep
+	Item    string   `json:"item"`    // func | var | stmt | local
+	Uses    int      `json:"uses"`    // bit set of dependencies used by the item
+	History string   `json:"history"` // single | chain | two | back | clone | reuse | viadep
 	// Isolated: the moved declaration is decorated on its own (DecorateNode on the declaration), not as
 	// part of its file
 	Isolated bool `json:"isolated,omitempty"`
